@@ -37,18 +37,19 @@ func (o Obligation) Key() string { return o.Property + "|" + o.Rule + "|" + o.Co
 // Ctx carries the program, the resolved roles and the obligations collected
 // while evaluating one property.
 type Ctx struct {
-	P            *Prog
-	R            *Roles
-	Property     string
-	Obls         []Obligation
-	ruleDoc      map[string]string
-	ruleN        map[string]int
-	stats        map[string]int
-	wsCache      *WS
-	optional     map[string]bool
-	closedFields map[*types.Var]bool
-	bufEntry     *ssa.Function
-	bufEntryDone bool
+	P             *Prog
+	R             *Roles
+	Property      string
+	Obls          []Obligation
+	ruleDoc       map[string]string
+	ruleN         map[string]int
+	stats         map[string]int
+	wsCache       *WS
+	optional      map[string]bool
+	closedFields  map[*types.Var]bool
+	bufEntry      *ssa.Function
+	bufEntryDone  bool
+	seenConstruct map[string]bool
 }
 
 func newCtx(p *Prog, r *Roles, property string) *Ctx {
